@@ -69,6 +69,15 @@ def badNameMsg (name : Bytes) : Bytes :=
 
 def EQ : Byte := 61
 
+/-- `echo $?` -/
+def echoStatus : Bytes := [101, 99, 104, 111, 32, 36, 63]
+/-- `setenv`, `printenv` -/
+def setenvB : Bytes := [115, 101, 116, 101, 110, 118]
+def printenvB : Bytes := [112, 114, 105, 110, 116, 101, 110, 118]
+
+/-- `str(status).encode()`: decimal digits -/
+def statusBytes (n : Nat) : Bytes := (Nat.toDigits 10 n).map fun c => UInt8.ofNat c.toNat
+
 def envDel (e : List (Bytes × Bytes)) (k : Bytes) : List (Bytes × Bytes) := e.filter (·.1 != k)
 def envSet (e : List (Bytes × Bytes)) (k v : Bytes) : List (Bytes × Bytes) := (k, v) :: envDel e k
 def envGet (e : List (Bytes × Bytes)) (k : Bytes) : Option Bytes := e.lookup k
@@ -84,14 +93,14 @@ def builtin (argv : List Bytes) (env : List (Bytes × Bytes)) : Bytes × Nat × 
   match argv with
   | [] => ([], 0, env)
   | cmd :: rest =>
-    if cmd == str "setenv" then
+    if cmd == setenvB then
       match rest with
       | [] => (usageMsg, 1, env)
       | name :: vals =>
         if !nameOk name then (badNameMsg name, 1, env)
         else if vals.isEmpty then ([], 0, envDel env name)
         else ([], 0, envSet env name (Quote.joinSp vals))
-    else if cmd == str "printenv" then
+    else if cmd == printenvB then
       match rest with
       | [name] =>
         match envGet env name with
@@ -116,8 +125,8 @@ def dispatch (argv : List Bytes) (con : Con) : Bytes × Con :=
 /-- Enter was pressed: what the line prints (before the serial driver), and the new state.
     `echo $?` is the one variable expansion that is modelled. -/
 def runLine (line : Bytes) (con : Con) : Bytes × Con :=
-  if line == Shell.echoStatusLine then
-    (Shell.statusBytes con.status ++ [LF], { con with status := 0, ran := con.ran ++ [Ran.status] })
+  if line == echoStatus then
+    (statusBytes con.status ++ [LF], { con with status := 0, ran := con.ran ++ [Ran.status] })
   else
     match Hush.hushWords line with
     | none => (syntaxMsg, { con with status := 1, ran := con.ran ++ [Ran.hazard line] })
@@ -168,16 +177,28 @@ def push (payload : Bytes) (ss : Sess) : Sess :=
   let c := cutCarry ss.cuts r.1
   { st := { ss.st with script := ss.st.script ++ Shell.toScript c.1 }, con := r.2, cuts := c.2 }
 
-/-- `ch.sendline(line, read_back=True)` with the console behind the transport.  A refused payload
-    reaches nobody.  (The console's answer to the whole payload is queued before the channel model
-    writes its 512-byte slices: the console echoes every byte at once and acts only on the final
-    Enter, so what each read-back finds is the same.) -/
+/-- the loop of `Channel.send(s, read_back=True)` (no timeout) with the console behind the
+    transport: every 512-byte slice is written (`Channel.write`), the console answers it, and the
+    echo is read back (`Channel.read(n)`, two bytes for every CR / LF) before the next slice goes
+    out.  Same steps as `Chan.sendLoop`, with the console's reaction in between. -/
+def sendLoopRB : Nat → Bytes → Sess → Except Exc Unit × Sess
+  | 0, _, ss => (.error .fuel, ss)
+  | _ + 1, [], ss => (.ok (), ss)
+  | f + 1, b :: t, ss =>
+    let chunk := (b :: t).take ss.st.slice
+    match write chunk false ss.st with
+    | (.error e, st) => (.error e, { ss with st := st })
+    | (.ok _, st) =>
+      let ss := push chunk { ss with st := st }
+      match read (some (chunk.length + countNl chunk)) none ss.st with
+      | (.error e, st) => (.error e, { ss with st := st })
+      | (.ok _, st) => sendLoopRB f ((b :: t).drop ss.st.slice) { ss with st := st }
+
+/-- `ch.sendline(line, read_back=True)`: `send(line + b"\r", read_back=True)`.  The whole payload
+    is checked against the black-list first; a refused payload reaches nobody. -/
 def sendlineRB (line : Bytes) (ss : Sess) : Except Exc Unit × Sess :=
   if forbidden ss.st.blacklist (line ++ [CR]) then (.error .illegal, ss)
-  else
-    let ss := push (line ++ [CR]) ss
-    let r := sendline line true none ss.st
-    (r.1, { ss with st := r.2 })
+  else sendLoopRB (line.length + 2) (line ++ [CR]) ss
 
 /-! ### `UBootShell` -/
 
@@ -191,8 +212,8 @@ abbrev URes (α : Type) := Except UExc α × Sess
 
 /-- the command and the channel prompt for which `exec` installs its prompt override
     (uboot.py: `args[0] == "crc32" and self.ch.prompt in ("=> ", b"=> ")`) -/
-def crcName : Bytes := str "crc32"
-def crcPrompt : Bytes := str "=> "
+def crcName : Bytes := [99, 114, 99, 51, 50]
+def crcPrompt : Bytes := [61, 62, 32]
 
 def isCrc (args : List Bytes) (s : St) : Bool :=
   args.head? == some crcName && s.prompt == some (.lit crcPrompt)
@@ -203,7 +224,7 @@ def stripCr (s : List Char) : List Char :=
 
 /-- `self.ch.sendline("echo $?", read_back=True); int(self.ch.read_until_prompt())` -/
 def fetchRetcode (ss : Sess) : URes Nat :=
-  match sendlineRB Shell.echoStatusLine ss with
+  match sendlineRB echoStatus ss with
   | (.error e, ss) => (.error (.chan e), ss)
   | (.ok _, ss) =>
     let r := readUntilPrompt none none ss.st
@@ -266,13 +287,13 @@ def env (var : Bytes) (value : Option Bytes) (ss : Sess) : URes (List Char) :=
   let r0 : URes Unit := match value with
     | none => (.ok (), ss)
     | some v =>
-      match exec0 [str "setenv", var, v] ss with
+      match exec0 [setenvB, var, v] ss with
       | (.error e, ss) => (.error e, ss)
       | (.ok _, ss) => (.ok (), ss)
   match r0 with
   | (.error e, ss) => (.error e, ss)
   | (.ok _, ss) =>
-    match exec0 [str "printenv", var] ss with
+    match exec0 [printenvB, var] ss with
     | (.error e, ss) => (.error e, ss)
     | (.ok output, ss) => (.ok (sliceValue var output), ss)
 
